@@ -54,6 +54,18 @@ func (w *world) faultOp(op sim.Op) bool {
 			}
 		}
 		w.fault("heal_net")
+	case "freeze_leader": // region A: its current leader is cut off from everyone AND stops ticking (a paused process)
+		rg := w.regions[imod(op.A, len(w.regions))].ID
+		if ld := w.leaderOf(rg); ld >= 0 {
+			for j := 0; j < ns; j++ {
+				if j != ld {
+					w.links[ld][j].cut, w.links[j][ld].cut = true, true
+				}
+			}
+			w.nodes[ld].stalled = true
+			w.frozen = ld
+			w.fault("leader_frozen")
+		}
 	case "stall":
 		n := w.nodes[a]
 		n.stalled = op.B%2 == 1
